@@ -1453,8 +1453,8 @@ fn sweep_body(c: &SweepCase, rec: &mut Rec) -> CaseResult {
 }
 
 pub fn check() -> Option<Check> {
-    let single = prop("single_validation", 30_000, 1_000_000, |_| single_case(), run);
-    let histories = prop("histories", 3_000, 100_000, history_case, run);
+    let single = prop("single_validation", 120_000, 1_000_000, |_| single_case(), run);
+    let histories = prop("histories", 20_000, 100_000, history_case, run);
     let sweep = enumerate("bit_and_clock_sweep", sweep_cases, sweep_body);
     Some(Check {
         id: "C06",
